@@ -5,6 +5,7 @@ import vlib
 
 LEVEL = "model_checking"
 W = os.path.join(vlib.HARNESS, "writers")
+H_ASYNC = [os.path.join(vlib.HARNESS, "asyncbufio", "c07_test.go")]
 RULE = ("scenario = one writer life (open, bursts of WriteRecord, disk stalls/partial drains chosen by the driver, Flush calls, Close); "
         "distinct by hash of (kind, accepted/rejected pattern, flush points); non-trivial = at least one record was rejected because "
         "the queue was full, or a flush happened with a non-empty queue")
